@@ -109,7 +109,7 @@ def classify_property(pid, desc):
     return 'safety'
 
 
-def compile_and_instrument(u, registry, tu_path, outdir, tag, defs, r=None):
+def compile_and_instrument(u, registry, tu_path, outdir, tag, defs, r=None, loop_contracts=True):
     a, b = os.path.join(outdir, 'a%s.gb' % tag), os.path.join(outdir, 'b%s.gb' % tag)
     cmd = ['goto-cc', '--function', 'gv_h', '-I', STUBS, '-DGV_CBMC'] + \
           ['-D' + d for d in list(u.defines) + defs] + [tu_path, '-o', a]
@@ -129,7 +129,7 @@ def compile_and_instrument(u, registry, tu_path, outdir, tag, defs, r=None):
         # a callee that is declared but never called is not in the goto model
         if re.search(r'^Symbol\.+: %s$' % re.escape(fn), symtab, re.M):
             cmd += ['--replace-call-with-contract', fn]
-    if u.kind != 'bounded':
+    if u.kind != 'bounded' and loop_contracts:
         cmd += ['--apply-loop-contracts']
     cmd += [a, b]
     if r is not None:
@@ -142,12 +142,12 @@ def compile_and_instrument(u, registry, tu_path, outdir, tag, defs, r=None):
     return b, ''
 
 
-def reach_check(u, registry, tu_path, outdir):
+def reach_check(u, registry, tu_path, outdir, unwound=False):
     """Vacuity guard: in a binary built with -DGV_REACH the harness ends in
     assert(0); it must be FAILURE (= reachable).  Always on the SAT back end
     (finding a model is what SAT is good at), optionally under the unit's
     concrete witness."""
-    b, err = compile_and_instrument(u, registry, tu_path, outdir, '_reach', ['GV_REACH'])
+    b, err = compile_and_instrument(u, registry, tu_path, outdir, '_reach', ['GV_REACH'], loop_contracts=not unwound)
     if b is None:
         return None, 'reach binary: ' + err
     rc, out, _ = sh(['cbmc', b, '--show-properties', '--json-ui'], 120)
@@ -164,6 +164,8 @@ def reach_check(u, registry, tu_path, outdir):
     cmd = ['cbmc', b, '--property', pid, '--json-ui']
     if u.kind == 'bounded' and u.unwind is not None:
         cmd += ['--unwind', str(u.unwind)]
+    if unwound:
+        cmd += ['--unwind', str(u.fallback_unwind)]
     cmd += [f for f in u.flags if f.startswith('--object-bits') or f.startswith('--unwindset')]
     if u.backend == 'smt':
         cmd += ['--cvc5']
@@ -271,7 +273,20 @@ def run_unit(u, registry, outroot):
     r.outdir = outdir
     try:
         tu, info = build_tu(u, registry)
-    except (extract.ExtractionError, lower.LoweringError, FileNotFoundError, KeyError) as e:
+    except lower.LoweringError as e:
+        # the function no longer has the shape the unit was written for:
+        # retry with the must-fire discipline off; loops whose contracts no
+        # longer fit are unwound completely if the unit states a bound
+        try:
+            tu, info = build_tu(u, registry, tolerant=True)
+            info['strict_lowering_error'] = str(e)
+            if info.get('loops_unwound') and u.fallback_unwind is None:
+                raise lower.LoweringError('%s (and the unit has no complete unwinding bound for changed loops)' % e)
+        except (extract.ExtractionError, lower.LoweringError, FileNotFoundError, KeyError) as e2:
+            r.reason = 'extraction/lowering broke: %s' % e2
+            r.wall = time.time() - t0
+            return r
+    except (extract.ExtractionError, FileNotFoundError, KeyError) as e:
         r.reason = 'extraction/lowering broke: %s' % e
         r.wall = time.time() - t0
         return r
@@ -282,7 +297,8 @@ def run_unit(u, registry, outroot):
     if 'cxx_body' in info:
         with open(os.path.join(outdir, 'extracted.cxx'), 'w') as f:
             f.write(info['cxx_body'])
-    b, err = compile_and_instrument(u, registry, tu_path, outdir, '', [], r)
+    unwound = bool(info.get('loops_unwound'))
+    b, err = compile_and_instrument(u, registry, tu_path, outdir, '', [], r, loop_contracts=not unwound)
     if b is None:
         r.reason = err
         r.wall = time.time() - t0
@@ -291,6 +307,8 @@ def run_unit(u, registry, outroot):
     base = ['cbmc', b] + checks + list(u.flags)
     if u.kind == 'bounded' and u.unwind is not None:
         base += ['--unwind', str(u.unwind), '--unwinding-assertions']
+    if unwound:
+        base += ['--unwind', str(u.fallback_unwind), '--unwinding-assertions']
     runs = []
     if u.backend == 'ib':
         # portfolio: int-blasting proves (UNSAT) what bit-blasting cannot, but
@@ -355,7 +373,7 @@ def run_unit(u, registry, outroot):
         r.reason = 'zero obligations generated (vacuous)'
         return r
     if u.reach:
-        ok, err = reach_check(u, registry, tu_path, outdir)
+        ok, err = reach_check(u, registry, tu_path, outdir, unwound)
         r.reach_ok = ok
         r.wall = time.time() - t0
         if ok is None:
@@ -370,7 +388,7 @@ def run_unit(u, registry, outroot):
         if n_post < n_ens:
             r.reason = 'contract has %d ensures clauses but only %d postcondition obligations were generated' % (n_ens, n_post)
             return r
-        if u.loops:
+        if u.loops and not unwound:
             n_step = sum(1 for o in r.obligations if o['cls'] == 'loop-invariant-step')
             if n_step < len(u.loops):
                 r.reason = 'loop contracts dropped: %d loops, %d invariant-step obligations' % (len(u.loops), n_step)
